@@ -5,6 +5,10 @@ props = [json.loads(l)['id'] for l in open('/verif/properties.jsonl')]
 TRUST = ("Trusted: go/packages+go/ssa fidelity and our SSA->SMT translation (subset stated in DESIGN 2.1/2.2), 64-bit int, "
          "soundness of z3 4.8.12 / z3 5.1.0 / cvc5 1.0.3, stdlib models of DESIGN 2.2, every contract marked assumed (listed in the evidence file). ")
 claimed = {
+ 'C13': dict(
+   text="Deductive proof of the state-machine slice: the ShapeIndex bookkeeping invariant SI (ids below nextID present, none above, pendingAdditionsPos <= nextID, fresh => nothing pending, lock free) is established by NewShapeIndex and preserved by Add, Reset, Build, Iterator, Begin, End, maybeApplyUpdates and applyUpdatesInternal from every SI-state, so it holds after every finite sequence of these operations (induction over histories, no bound); the update path never re-enters the index lock (mutex word modelled in memory, Lock requires it free); Loop.Invert re-establishes 'index holds exactly this loop, pending from 0'; every polygon constructor path through initEdgesAndIndex yields a non-nil index; EdgeQuery.FindEdges/Distance/IsDistanceLess/IsDistanceGreater/IsConservative* leave the options pointer and the pointed-to options bit-identical (frame). Equality of float answers across histories beyond these invariants, Remove, and the bodies of the clipping recursion are not decided.",
+   note=TRUST+"Assumed contracts: removeShapeInternal, addShapeInternal, updateFaceEdges (bodies outside the subset), findEdgesInternal, sortAndUniqueResults, NewShapeIndexIterator, LocateCellID, PaddedCell.ShrinkToFit, Loop.initBound; unreachability of tracker.lowerBound rests on updateFaceEdges passing disjointFromIndex=isFirstUpdate() (body not verified).",
+   design="3 C13"),
  'C15': dict(
    text="Deductive proof over the whole decode call graph (Point, Cap, Rect, CellID, Cell, CellUnion, Polyline, Loop, Polygon in both formats, compressed point decoding, face runs, derivative coder) against an adversarial input stream (every read returns an unconstrained value and error status = all byte strings of all lengths): no index/slice/nil/make-size/division panic, every make() is within the documented limits (vertices 50M, loops 10M, cells 1M) on the value actually passed, decode loops terminate (counting loops or decreases clauses), and Decode returns a non-nil error whenever a read failed or a validity check raised an error (ghost event flags). Usability of the decoded value by float geometry (initBound, index build) is outside and listed as assumed.",
    note=TRUST+"Assumed contracts (listed in evidence): NewShapeIndex, ShapeIndex.Add, ExpandForSubregions, Loop.initBound, Polygon.initLoopProperties, Polygon.initEdgesAndIndex, facePiQitoXYZ, CellFromCellID; stdlib I/O models (binary.Read, ReadUvarint, io.ReadFull, ReadByte).",
